@@ -501,8 +501,55 @@ impl Stats {
     }
 }
 
+// ------------------------------------------------------------------------------------------
+// watchdog: a pass that does not return is data too
+// ------------------------------------------------------------------------------------------
+
+static CURRENT: std::sync::Mutex<Option<(std::time::Instant, String)>> = std::sync::Mutex::new(None);
+static HANG_FILE: std::sync::Mutex<Option<String>> = std::sync::Mutex::new(None);
+
+/// If one call of the pass runs longer than `limit` seconds the case is written to `<out>.hang` as an event
+/// `{"hang": seconds, script, font, exc, lh, rh, hc}` and the process exits with code 3 (no specification accepts a hang).
+fn start_watchdog(args: &Args) {
+    let limit: u64 = args.num("hang", 20);
+    *HANG_FILE.lock().unwrap() = args.str("out").map(|p| format!("{p}.hang"));
+    std::thread::spawn(move || loop {
+        std::thread::sleep(std::time::Duration::from_millis(250));
+        let cur = CURRENT.lock().unwrap().clone();
+        if let Some((t0, case)) = cur {
+            if t0.elapsed().as_secs() >= limit {
+                let mut v: Value = serde_json::from_str(&case).unwrap();
+                v["hang"] = json!(limit);
+                let path = HANG_FILE.lock().unwrap().clone();
+                match path {
+                    Some(p) => std::fs::write(p, v.to_string() + "\n").unwrap(),
+                    None => println!("{v}"),
+                }
+                eprintln!("the hyphenation pass did not return within {limit}s");
+                std::process::exit(3);
+            }
+        }
+    });
+}
+
+fn case_json(case: &Case) -> Value {
+    let exc: Vec<Value> = case
+        .exc
+        .iter()
+        .map(|(w, p)| json!({"w": w.chars().map(code).collect::<Vec<_>>(), "p": p}))
+        .collect();
+    json!({
+        "script": case.script.iter().map(item_json).collect::<Vec<_>>(),
+        "font": font_json(&case.font),
+        "exc": exc,
+        "lh": case.lh, "rh": case.rh, "hc": code(HYPHEN),
+    })
+}
+
 fn emit(case: &Case, font: &Font, out: &mut Out, st: &mut Stats) {
+    *CURRENT.lock().unwrap() = Some((std::time::Instant::now(), case_json(case).to_string()));
     let ran = run_case(case, font);
+    *CURRENT.lock().unwrap() = None;
     let ev = event(case, &ran);
     st.record(&ran, &ev);
     out.line(&ev);
@@ -647,6 +694,7 @@ fn hyphen_mins(i: u64, rng: &mut Rng, extremes: bool) -> (i32, i32) {
 
 fn text_cases(args: &Args) -> i32 {
     quiet_panics();
+    start_watchdog(args);
     let seed: u64 = args.num("seed", 1);
     let n: u64 = args.num("n", 1000);
     let extremes = args.num("extremes", 0) == 1;
@@ -763,6 +811,7 @@ fn synth_word(rng: &mut Rng) -> String {
 
 fn synth_cases(args: &Args) -> i32 {
     quiet_panics();
+    start_watchdog(args);
     let seed: u64 = args.num("seed", 1);
     let n: u64 = args.num("n", 1000);
     let level: u64 = args.num("level", 1);
@@ -848,13 +897,15 @@ fn struct_token(t: usize, id: u32) -> Vec<Item> {
         15 => node(json!({"k":"adjust"})),
         16 => node(json!({"k":"hbox","w":200 + id})),
         17 => node(json!({"k":"kern","w":2000 + id,"x":2})),
-        18 => node(json!({"k":"kern","w":3000 + id,"x":0})),
+        // (a raw kern of kind Normal is not generated: in text a Normal kern comes from the font program only,
+        // and TeX itself drops any other one when it rebuilds the word)
         _ => node(json!({"k":"vbox","w":300 + id})),
     }
 }
 
 fn struct_cases(args: &Args) -> i32 {
     quiet_panics();
+    start_watchdog(args);
     let maxlen: usize = args.num("maxlen", 3);
     let ntok: usize = args.num("tokens", 13);
     let lead: usize = args.num("lead", 1);
@@ -951,6 +1002,88 @@ const UNIT: &[(&str, &str, Option<&str>, i32)] = &[
     ("d-if-fi-cult", "ff -> _0^_\n0i -> _1^_", None, 3),
 ];
 
+/// fixed cases for each recorded deviation and for the situations the property names, so that every tier
+/// meets them whatever the seed: (text with `-` = permitted positions and `--` = a real hyphen, compact rules, lh, rh)
+const FIXED: &[(&str, &str, i32, i32)] = &[
+    ("x a-b", "|a -> |[50]a", 1, 1),                          // left-boundary kern
+    ("x ab", "|a -> |[50]a", 1, 1),                           // ... in a word without permitted position
+    ("x a-b", "|a -> |c^a", 1, 1),                            // boundary-only ligature
+    ("x (a-b", "|a -> |[50]a", 1, 1),                         // punctuation before the word
+    ("x (a-b", "|a -> _z^_", 1, 1),
+    ("x (a-b", "(a -> ([70]a", 1, 1),
+    ("x (ab-c", "(a -> _z^_\nzb -> z[30]b\n|b -> |[44]b", 1, 1),
+    ("x (d-a", "(d -> (a^_", 1, 1),                           // ligature with the left context
+    ("x a-bc", "ab -> _x^_\nbc -> _z^_\nc| -> _w^_", 1, 1),   // right-boundary ligature rebuilt while synchronising
+    ("x a-bc", "ab -> _x^_\nbc -> _z^_\nc| -> c[77]|", 1, 1),
+    ("x d--ac-bad", "d- -> _2^_", 1, 1),                      // ligature letter + hyphen starts a word
+    ("x jour-ney.", "y. -> y^,_\n,| -> ,?^|", 1, 1),          // ligature with the character after the word
+    ("x journey.", "y. -> y^,_\n,| -> ,?^|", 1, 1),
+    ("x b, a-b", "b, -> _1^,", 1, 1),
+    ("x a-b-c-d", "a- -> a[10]-\nb- -> _x^-\nc- -> cy^-\n-| -> -[5]|\n|d -> |[7]d", 1, 1), // hyphen and boundaries
+    ("x a-b-c-d", "ab -> a[10]b\nbc -> _x^_\nxd -> _y^_", 1, 1),
+    ("x a-b-c-d", "ab -> a[10]b\nbc -> _x^_\nxd -> _y^_", 2, 2),
+    ("x ab-cd", "", 3, 0),
+    ("x ab-cd", "", 0, 3),
+];
+
+fn fixed_cases(out: &mut Out, st: &mut Stats) {
+    for (text, prog, lh, rh) in FIXED {
+        let (bc, rules) = compact_rules(&prog.replace("\\n", "\n"));
+        let spec = FontSpec::Synth { bc, rules };
+        let font = load_font(&spec).expect("fixed-case font");
+        let (plain, exc) = marked_text(text);
+        for tail in [false, true] {
+            let mut script = script_from_text(&plain);
+            if tail {
+                script.extend(tail_items());
+            }
+            emit(&Case { font: spec.clone(), script, exc: exc.clone(), lh: *lh, rh: *rh }, &font, out, st);
+        }
+    }
+}
+
+/// "x dif-fi-cult well--known": hyphens mark the permitted positions of each run of letters, a doubled hyphen is
+/// a real hyphen character.  Returns the plain text and the exceptions.
+fn marked_text(text: &str) -> (String, BTreeMap<String, Vec<usize>>) {
+    let mut exc = BTreeMap::new();
+    let mut plain = String::new();
+    for tok in text.split(' ') {
+        let marked = tok.replace("--", "\u{1}");
+        let mut pos = vec![];
+        let mut w = String::new();
+        let mut run = String::new();
+        let mut flush = |run: &mut String, pos: &mut Vec<usize>| {
+            if !run.is_empty() {
+                exc.insert(run.to_ascii_lowercase(), std::mem::take(pos));
+                run.clear();
+            }
+        };
+        for c in marked.chars() {
+            match c {
+                '-' => pos.push(run.len()),
+                '\u{1}' => {
+                    flush(&mut run, &mut pos);
+                    w.push('-');
+                }
+                c if c.is_ascii_alphabetic() => {
+                    run.push(c);
+                    w.push(c);
+                }
+                c => {
+                    flush(&mut run, &mut pos);
+                    w.push(c);
+                }
+            }
+        }
+        flush(&mut run, &mut pos);
+        if !plain.is_empty() || tok.is_empty() {
+            plain.push(' ');
+        }
+        plain.push_str(&w);
+    }
+    (plain, exc)
+}
+
 fn compact_rules(src: &str) -> (Option<u8>, Vec<Rule>) {
     use tfm::ligkern::lang::{Operation, PostLigOperation::*};
     let mut rules = vec![];
@@ -984,6 +1117,7 @@ fn compact_rules(src: &str) -> (Option<u8>, Vec<Rule>) {
 
 fn unit_cases(args: &Args) -> i32 {
     quiet_panics();
+    start_watchdog(args);
     let mut out = Out::new(args.str("out"));
     let mut st = Stats::default();
     for (input, prog, exc_src, lh) in UNIT {
@@ -1016,6 +1150,7 @@ fn unit_cases(args: &Args) -> i32 {
             emit(&Case { font: spec.clone(), script, exc: exc.clone(), lh: *lh, rh: 1 }, &font, &mut out, &mut st);
         }
     }
+    fixed_cases(&mut out, &mut st);
     st.write(args, "unit");
     0
 }
@@ -1026,6 +1161,7 @@ fn unit_cases(args: &Args) -> i32 {
 
 fn replay(args: &Args) -> i32 {
     quiet_panics();
+    start_watchdog(args);
     let src = std::fs::read_to_string(args.req("in")).unwrap();
     let mut out = Out::new(args.str("out"));
     let mut st = Stats::default();
@@ -1033,7 +1169,9 @@ fn replay(args: &Args) -> i32 {
         let e: Value = serde_json::from_str(line).unwrap();
         let case = case_from_event(&e);
         let font = load_font(&case.font).expect("font of the recorded event");
+        *CURRENT.lock().unwrap() = Some((std::time::Instant::now(), case_json(&case).to_string()));
         let ran = run_case(&case, &font);
+        *CURRENT.lock().unwrap() = None;
         eprintln!("before: {}", show(&ran.before));
         match &ran.after {
             Ok(a) => eprintln!("after:  {}", show(a)),
@@ -1099,42 +1237,7 @@ fn probe(args: &Args) -> i32 {
         }
     };
     let font = load_font(&spec).expect("font");
-    let mut exc = BTreeMap::new();
-    let mut plain = String::new();
-    for tok in text.split(' ') {
-        let marked = tok.replace("--", "\u{1}");
-        let mut pos = vec![];
-        let mut w = String::new();
-        let mut run = String::new();
-        let mut flush = |run: &mut String, pos: &mut Vec<usize>| {
-            if !run.is_empty() {
-                exc.insert(run.to_ascii_lowercase(), std::mem::take(pos));
-                run.clear();
-            }
-        };
-        for c in marked.chars() {
-            match c {
-                '-' => pos.push(run.len()),
-                '\u{1}' => {
-                    flush(&mut run, &mut pos);
-                    w.push('-');
-                }
-                c if c.is_ascii_alphabetic() => {
-                    run.push(c);
-                    w.push(c);
-                }
-                c => {
-                    flush(&mut run, &mut pos);
-                    w.push(c);
-                }
-            }
-        }
-        flush(&mut run, &mut pos);
-        if !plain.is_empty() || tok.is_empty() {
-            plain.push(' ');
-        }
-        plain.push_str(&w);
-    }
+    let (plain, exc) = marked_text(text);
     let mut script = script_from_text(&plain);
     if args.num("tail", 0) == 1 {
         script.extend(tail_items());
